@@ -27,6 +27,7 @@ package main
 import (
 	"bufio"
 	"bytes"
+	"crypto/tls"
 	"fmt"
 	"io"
 	"net"
@@ -41,6 +42,7 @@ import (
 	"time"
 
 	martian "github.com/google/martian/v3"
+	"github.com/google/martian/v3/mitm"
 	mlog "github.com/google/martian/v3/log"
 	"verifharness/hx"
 	"verifharness/p1x"
@@ -55,7 +57,7 @@ func (stamp) ModifyResponse(res *http.Response) error {
 	return nil
 }
 
-func proxyChild() {
+func proxyChild(withMITM bool) {
 	mlog.SetLevel(mlog.Silent)
 	l, err := net.Listen("tcp", "127.0.0.1:0")
 	if err != nil {
@@ -76,6 +78,22 @@ func proxyChild() {
 		}
 		return d.Dial(network, addr)
 	})
+	if withMITM {
+		// the same proxy with TLS interception of CONNECT switched on, and a
+		// short per-request timeout so that "silence" is over quickly
+		ca, priv, err := mitm.NewAuthority("verif", "verif", time.Hour)
+		if err != nil {
+			fmt.Println("ERR", err)
+			os.Exit(3)
+		}
+		mc, err := mitm.NewConfig(ca, priv)
+		if err != nil {
+			fmt.Println("ERR", err)
+			os.Exit(3)
+		}
+		p.SetMITM(mc)
+		p.SetTimeout(mitmTimeout)
+	}
 	fmt.Println("ADDR", l.Addr().String())
 	go func() { // exit when the parent goes away
 		io.Copy(io.Discard, os.Stdin)
@@ -85,6 +103,7 @@ func proxyChild() {
 }
 
 type child struct {
+	kind string
 	mu   sync.Mutex
 	cmd  *exec.Cmd
 	addr string
@@ -94,10 +113,22 @@ type child struct {
 	in   io.WriteCloser
 }
 
-var ch child
+// two proxies under test: plain, and MITM-enabled
+var plainChild = &child{kind: "proxy-child"}
+var mitmChild = &child{kind: "proxy-child-mitm"}
+var ch = plainChild
+
+const mitmTimeout = 3 * time.Second
+
+func childFor(m bool) *child {
+	if m {
+		return mitmChild
+	}
+	return plainChild
+}
 
 func (c *child) start() error {
-	cmd := exec.Command(os.Args[0], "-extra", "proxy-child")
+	cmd := exec.Command(os.Args[0], "-extra", c.kind)
 	cmd.Env = append(os.Environ(), "GOTRACEBACK=single")
 	in, _ := cmd.StdinPipe()
 	out, _ := cmd.StdoutPipe()
@@ -428,6 +459,10 @@ func fmtResp(m *p1x.Msg) string {
 
 func runUF(in []string) (out []string) {
 	mode := in[1]
+	ch := plainChild
+	if strings.HasPrefix(mode, "m") { // mseq / mpipe: through the MITM-enabled proxy
+		ch, mode = mitmChild, mode[1:]
+	}
 	var exs []*exch
 	byID := map[int]*exch{}
 	for _, t := range in[2:] {
@@ -573,7 +608,7 @@ func runUF(in []string) (out []string) {
 }
 
 // probe: one plain exchange through the proxy on a fresh connection.
-func probe() bool {
+func probe(ch *child) bool {
 	origin, err := p1x.NewOrigin(false, nil)
 	if err != nil {
 		return false
@@ -600,9 +635,10 @@ func probe() bool {
 }
 
 func runMAL(in []string) (out []string) {
-	if len(in) != 3 {
+	if len(in) != 3 && len(in) != 4 {
 		return []string{"BADCASE"}
 	}
+	ch := childFor(len(in) == 4 && in[3] == "m")
 	data, err := hx.UnHex(in[1])
 	if err != nil {
 		return []string{"BADCASE"}
@@ -637,7 +673,7 @@ func runMAL(in []string) (out []string) {
 		out = append(out, "DEAD:"+hx.HexS(msg)[1:])
 		return out
 	}
-	if probe() {
+	if probe(ch) {
 		out = append(out, "ALIVE")
 	} else if msg, dead := ch.diedSince(gen); dead {
 		out = append(out, "DEAD:"+hx.HexS(msg)[1:])
@@ -646,6 +682,131 @@ func runMAL(in []string) (out []string) {
 	}
 	return out
 }
+
+// runCST: a client stream built around a CONNECT.
+//
+//	CST <p|m> <step>*     p: plain proxy, m: MITM-enabled proxy
+//	steps: connect (send CONNECT for the origin, read the answer) | close | half (shutdown of the write side) |
+//	       wait<ms> | raw:<hex> | tls (client handshake, certificate not verified) | tlsraw:<hex> | read (until idle / EOF)
+//
+// OUT: cst:<what was seen, step by step>  then DEAD:… or ALIVE / UNRESPONSIVE from a probe on a fresh connection.
+func runCST(in []string) (out []string) {
+	ch := childFor(in[1] == "m")
+	origin, err := p1x.NewOrigin(false, nil)
+	if err != nil {
+		return []string{"ENV:listen"}
+	}
+	defer origin.Close()
+	origin.SetHandler(func(idx int, m *p1x.Msg) p1x.Action {
+		return p1x.Action{Bytes: []byte("HTTP/1.1 200 OK\r\nContent-Length: 6\r\nConnection: close\r\n\r\ntunnel"), Close: true}
+	})
+	addr, gen := ch.get()
+	conn, err := net.Dial("tcp", addr)
+	if err != nil {
+		return []string{"ENV:dial"}
+	}
+	defer conn.Close()
+	var c net.Conn = conn
+	br := bufio.NewReader(conn)
+	var seen []string
+	closed := false
+	readSome := func(r io.Reader, d time.Duration) string {
+		c.SetReadDeadline(time.Now().Add(d))
+		buf := make([]byte, 4096)
+		n, err := r.Read(buf)
+		switch {
+		case n >= 12 && bytes.HasPrefix(buf, []byte("HTTP/1.")):
+			return "resp" + string(buf[9:12])
+		case n > 0:
+			return "bytes"
+		case err == io.EOF || (err != nil && strings.Contains(err.Error(), "reset")):
+			return "eof"
+		default:
+			return "idle"
+		}
+	}
+	for _, st := range in[2:] {
+		if closed {
+			break
+		}
+		c.SetWriteDeadline(time.Now().Add(5 * time.Second))
+		switch {
+		case st == "connect":
+			fmt.Fprintf(conn, "CONNECT %s HTTP/1.1\r\nHost: %s\r\n\r\n", origin.Addr, origin.Addr)
+			conn.SetReadDeadline(time.Now().Add(idleNow()))
+			m := p1x.ReadResponse(br, "CONNECT", true)
+			if m == nil {
+				seen = append(seen, "connect-eof")
+			} else {
+				seen = append(seen, fmt.Sprintf("connect%d", m.Status))
+			}
+		case st == "close":
+			conn.Close()
+			closed = true
+			seen = append(seen, "closed")
+		case st == "half":
+			if tc, ok := conn.(*net.TCPConn); ok {
+				tc.CloseWrite()
+			}
+			seen = append(seen, "half")
+		case strings.HasPrefix(st, "wait"):
+			ms, _ := strconv.Atoi(st[4:])
+			if ms > 10000 {
+				ms = 10000
+			}
+			time.Sleep(time.Duration(ms) * time.Millisecond)
+		case strings.HasPrefix(st, "raw:"):
+			b, _ := hx.UnHex("x" + st[4:])
+			conn.Write(b)
+		case st == "tls":
+			tc := tls.Client(&bufConn{Conn: conn, r: br}, &tls.Config{InsecureSkipVerify: true, ServerName: "verif.invalid"})
+			tc.SetDeadline(time.Now().Add(1500 * time.Millisecond))
+			if err := tc.Handshake(); err != nil {
+				seen = append(seen, "tls-failed")
+			} else {
+				seen = append(seen, "tls-ok")
+				c = tc
+			}
+		case strings.HasPrefix(st, "tlsraw:"):
+			b, _ := hx.UnHex("x" + st[7:])
+			c.Write(b)
+		case st == "read":
+			var r io.Reader = br
+			if c != net.Conn(conn) {
+				r = c
+			}
+			seen = append(seen, readSome(r, 400*time.Millisecond))
+		}
+	}
+	if !closed {
+		conn.Close()
+	}
+	out = append(out, "cst:"+strings.Join(seen, ","))
+	if msg, dead := ch.diedSince(gen); dead {
+		return append(out, "DEAD:"+hx.HexS(msg)[1:])
+	}
+	// give the proxy's goroutine the time to trip over what we left behind
+	time.Sleep(50 * time.Millisecond)
+	if probe(ch) {
+		out = append(out, "ALIVE")
+	} else if msg, dead := ch.diedSince(gen); dead {
+		out = append(out, "DEAD:"+hx.HexS(msg)[1:])
+	} else {
+		out = append(out, "UNRESPONSIVE")
+	}
+	if msg, dead := ch.diedSince(gen); dead && out[len(out)-1] == "ALIVE" {
+		out[len(out)-1] = "DEAD:" + hx.HexS(msg)[1:]
+	}
+	return out
+}
+
+// bufConn reads through the bufio.Reader that may already hold bytes.
+type bufConn struct {
+	net.Conn
+	r *bufio.Reader
+}
+
+func (b *bufConn) Read(p []byte) (int, error) { return b.r.Read(p) }
 
 func runCase(in []string) (out []string) {
 	defer func() {
@@ -658,6 +819,9 @@ func runCase(in []string) (out []string) {
 	}
 	if len(in) >= 1 && in[0] == "MAL" {
 		return runMAL(in)
+	}
+	if len(in) >= 2 && in[0] == "CST" {
+		return runCST(in)
 	}
 	return []string{"BADCASE"}
 }
@@ -678,8 +842,8 @@ func runRobust(in []string) []string {
 func main() {
 	mlog.SetLevel(mlog.Silent)
 	for i, a := range os.Args {
-		if a == "-extra" && i+1 < len(os.Args) && os.Args[i+1] == "proxy-child" {
-			proxyChild()
+		if a == "-extra" && i+1 < len(os.Args) && strings.HasPrefix(os.Args[i+1], "proxy-child") {
+			proxyChild(os.Args[i+1] == "proxy-child-mitm")
 			return
 		}
 	}
@@ -692,7 +856,8 @@ func main() {
 		}
 		return
 	}
-	defer ch.stop()
+	defer plainChild.stop()
+	defer mitmChild.stop()
 	var cases []hx.Case
 	pre, replayOnly := cfg.Inputs()
 	cases = append(cases, pre...)
@@ -721,10 +886,16 @@ func main() {
 	}
 	// the proxy process must have survived everything
 	if !replayOnly {
-		out := []string{"ALIVE"}
-		if !probe() {
-			out = []string{"UNRESPONSIVE"}
+		for _, m := range []bool{false, true} {
+			out := []string{"ALIVE"}
+			if !probe(childFor(m)) {
+				out = []string{"UNRESPONSIVE"}
+			}
+			in := []string{"MAL", "x", "0"}
+			if m {
+				in = append(in, "m")
+			}
+			cfg.Emit(hx.Case{Name: fmt.Sprintf("final-liveness-mitm-%v", m), In: in, Out: append([]string{"mal:none"}, out...)})
 		}
-		cfg.Emit(hx.Case{Name: "final-liveness", In: []string{"MAL", "x", "0"}, Out: append([]string{"mal:none"}, out...)})
 	}
 }
